@@ -156,10 +156,15 @@ Proof.
       destruct cs; try exact X. contradiction. }
     rewrite Eghost.
     (* the chain of the key *)
-    assert (Hcur : forall a, last_opt (ktrace K tr) = Some a -> a = KRes \/
-              (snd (dr_cursor rq) = nxt a /\ (stale (d_log d) (dr_cursor rq) = true -> snd (dr_cursor rq) <= base_of (d_log d)))).
-    { intros a Ha. destruct (D4 id o rq a Ho (or_intror (or_introl eq_refl)) Eg0 Ha) as [Hres | [C1 C2]]; [now left|right].
-      split; [exact C1|]. intros Hs. now apply (C2 d Hd). }
+    assert (Hcur : forall a, last_opt (ktrace K tr) = Some a ->
+              snd (dr_cursor rq) = nxt a /\
+              (stale (d_log d) (dr_cursor rq) = true -> is_res a = false -> snd (dr_cursor rq) <= base_of (d_log d))).
+    { intros a Ha. destruct (D4 id o rq a Ho (or_intror (or_introl eq_refl)) Eg0 Ha) as [C1 C2].
+      split; [exact C1|]. intros Hs Hnr. now apply (C2 Hnr d Hd). }
+    assert (HevE : forallb (fun a => negb (is_end a)) evK = true).
+    { unfold evK. rewrite forallb_app. apply andb_true_iff. split.
+      - destruct (stale (d_log d) (dr_cursor rq)); reflexivity.
+      - apply forallb_forall. intros x Hx. apply in_map_iff in Hx as (y & <- & _). reflexivity. }
     assert (HneK : ktrace K tr <> []) by (apply (D6 id o rq Ho (or_intror (or_introl eq_refl)) Eg0)).
     assert (Hp : p = if stale (d_log d) (dr_cursor rq) then base_of (d_log d) else snd (dr_cursor rq)) by reflexivity.
     destruct (sweep_chain (ktrace K tr) _ _ p _ fw (D3 K) Hcur Hp Hseq) as [Hch Hlast]. fold evK in Hch, Hlast.
@@ -179,7 +184,7 @@ Proof.
       apply in_map_iff in Hin as (a0 & E0 & Ha0). inversion E0; subst. exists d. split; [exact Hd|].
       specialize (HevK _ Ha0). lia.
     + intros K'. rewrite ktrace_app. destruct (dkey_dec K' K) as [-> | Hne].
-      * rewrite ktrace_all_same. exact Hch.
+      * rewrite ktrace_all_same by exact HevE. exact Hch.
       * rewrite ktrace_all_other by exact Hne. rewrite app_nil_r. apply D3.
     + intros c o2 r a Ho2 Hh Hg Hl. rewrite D. rewrite ktrace_app in Hl.
       destruct Hh as [Hh | [E1 | Hh]].
@@ -187,8 +192,8 @@ Proof.
           inversion E1; subst c r. destruct (OS _ _ Ho2) as (o0 & Ho0 & Hs). apply ostep_link in Hs as [Hs _].
           rewrite Ho in Ho0. inversion Ho0; subst o0.
           assert (Hk : key_of o2 rq' = K) by (unfold key_of, K; now rewrite Hs, Ef, Ei).
-          rewrite Hk, ktrace_all_same in Hl. destruct (Hlast _ Hl) as [Hres | Hnx]; [now left|right]. split; [lia|].
-          intros d0 Hd0 Hs0. rewrite Ei, Hd in Hd0. inversion Hd0; subst d0. congruence. }
+          rewrite Hk, ktrace_all_same in Hl by exact HevE. specialize (Hlast _ Hl). split; [lia|].
+          intros _ d0 Hd0 Hs0. rewrite Ei, Hd in Hd0. inversion Hd0; subst d0. congruence. }
       all: assert (Hh' : Held st1 c r \/ In (c, r) e) by auto;
            destruct (Hold _ _ _ Ho2 Hh') as (o0 & Ho0 & Hlk & Hhe);
            assert (Hk : key_of o2 r = key_of o0 r) by (unfold key_of; now rewrite Hlk); rewrite Hk in Hl;
